@@ -34,8 +34,9 @@ func TestMain(m *testing.M) { os.Exit(R.Main(m)) }
 const idAlphabet = "abcdefghijklmnopqrstuvwxyzABCDEFGHIJKLMNOPQRSTUVWXYZ0123456789-_ "
 
 func genID(t *rapid.T, label string) string {
-	// the filesystem keystore appends up to 16 bytes to the id to form a file name (255-byte limit of the OS)
-	n := rapid.SampledFrom([]int{5, 5, 6, 8, 12, 20, 64, 200, 230}).Draw(t, label+".len")
+	// the filesystem keystore appends a kind suffix, ".old" and a temporary-file suffix to the id to form file
+	// names (255-byte limit of the OS), so ids stay well below that
+	n := rapid.SampledFrom([]int{5, 5, 6, 8, 12, 20, 64, 160, 200}).Draw(t, label+".len")
 	b := make([]byte, n)
 	for i := range b {
 		b[i] = idAlphabet[rapid.IntRange(0, len(idAlphabet)-1).Draw(t, fmt.Sprintf("%s.c%d", label, i%8))]
@@ -49,7 +50,7 @@ func genPair(t *rapid.T) (string, string) {
 	a := genID(t, "a")
 	switch rapid.SampledFrom([]string{"independent", "prefix", "case", "suffix-kind", "lastchar"}).Draw(t, "pairkind") {
 	case "prefix":
-		if len(a) < 220 {
+		if len(a) < 190 {
 			return a, a + rapid.SampledFrom([]string{"_", "x", "_storage", "_hmac", "-1", " "}).Draw(t, "ext")
 		}
 	case "case":
@@ -61,7 +62,7 @@ func genPair(t *rapid.T) (string, string) {
 			return a, b
 		}
 	case "suffix-kind":
-		if len(a) < 220 {
+		if len(a) < 190 {
 			return a, a + rapid.SampledFrom([]string{"_storage", "_storage_sym", "_hmac", "_storage.pub"[:8]}).Draw(t, "kindext")
 		}
 	case "lastchar":
